@@ -11,6 +11,7 @@ import (
 
 	"verif/corpus"
 	"verif/ev"
+	"verif/pkt"
 	"verif/wire"
 )
 
@@ -98,6 +99,18 @@ func c07Seeds(thorough bool) []*devSeed {
 	for _, k := range keys {
 		c := best[k]
 		b, marks := wire.Encode(c.n)
+		if c.n.K == "packet_in" {
+			// the payload's own length-, count- and type-like fields are structural fields too
+			if pt := corpus.PktTreeByBytes[string(c.n.B["Data"])]; pt != nil {
+				pb, pm := pkt.Encode(pt)
+				off := len(b) - len(pb)
+				for _, m := range pm {
+					m.Off += off
+					m.Path = "payload/" + m.Path
+					marks = append(marks, m)
+				}
+			}
+		}
 		out = append(out, &devSeed{Name: shortModel(c.n), B: b, Marks: marks})
 	}
 	sort.SliceStable(out, func(i, j int) bool { return len(out[i].B) < len(out[j].B) })
